@@ -215,6 +215,65 @@ def check_skeleton(case, ctx):
             ctx.nontrivial([g, w, case['parser']], sample={'grammar': g, 'text': w, 'reconstructed': out})
 
 
+# ------------------------------------------------------------------ term_subs: filtered regexp terminals and terminals declared for a post-lexer
+class _EndPostLex:
+    """turns SEMI tokens into the %declare'd terminal _END (the way an indenter produces _INDENT/_DEDENT)"""
+    always_accept = ('SEMI',)
+    def process(self, stream):
+        for t in stream:
+            yield Token.new_borrow_pos('_END', t.value, t) if t.type == 'SEMI' else t
+
+
+SUBS = [
+    # (grammar, postlex or None, term_subs, sentence templates)
+    ('start: stmt+\nstmt: NAME "=" NUM _END | "print" NAME _END | "{" stmt+ "}"\n%declare _END\nSEMI: ";"\nNAME: /[a-z]+/\nNUM: /[0-9]+/\n%ignore " "\n',
+     _EndPostLex, {'_END': lambda s: ';'}, ['W = N ;', 'print W ;', '{ W = N ; print W ; }']),
+    ('start: item (_SEP item)*\n?item: NAME | "(" start ")" | NAME _ARROW item -> to\n_SEP: /,+/\n_ARROW: /-+>/\nNAME: /[a-z]+/\n%ignore " "\n',
+     None, {'_SEP': lambda s: ',', '_ARROW': lambda s: '->'}, ['W', 'W , W', 'W ,, ( W , W )', 'W --> W', 'W -> ( W ,,, W ) , W']),
+]
+
+
+@st.composite
+def subs_cases(draw):
+    k = draw(st.integers(0, len(SUBS) - 1))
+    def sentence():
+        parts = draw(st.lists(st.sampled_from(SUBS[k][3]), min_size=1, max_size=3))
+        joined = (' , ' if k == 1 else ' ').join(parts)
+        return ' '.join({'W': draw(st.sampled_from(['a', 'bc', 'print', 'x'])), 'N': draw(st.sampled_from(['1', '22']))}.get(x, x) for x in joined.split())
+    return {'skel': k, 'texts': [sentence() for _ in range(4)], 'parser': draw(st.sampled_from(['lalr', 'lalr', 'earley']))}
+
+
+def check_subs(case, ctx):
+    g, postlex, subs, _t = SUBS[case['skel']]
+    if postlex is not None and case['parser'] != 'lalr':
+        kw = {'parser': 'lalr'}
+    else:
+        kw = {'parser': case['parser']}
+    if postlex is not None: kw['postlex'] = postlex()
+    p = Lark(g, maybe_placeholders=False, **kw)
+    try:
+        rec = Reconstructor(p, term_subs=subs)
+    except Exception as e:
+        raise Violation('Reconstructor construction raised %s' % type(e).__name__, grammar=g, error=str(e)[:300])
+    for w in case['texts']:
+        try:
+            t = p.parse(w)
+        except UnexpectedInput:
+            ctx.label('subs:rejected'); continue
+        try:
+            out = rec.reconstruct(t)
+        except Exception as e:
+            raise Violation('reconstruct raised %s' % type(e).__name__, grammar=g, text=w, term_subs=sorted(subs), error=str(e)[:200])
+        try:
+            t2 = p.parse(out)
+        except UnexpectedInput as e:
+            raise Violation('reconstructed text is rejected by the parser', grammar=g, text=w, reconstructed=out, error=str(e)[:200])
+        if norm(t2) != norm(t):
+            raise Violation('reconstructed text parses to a different tree', grammar=g, text=w, reconstructed=out, original=str(norm(t))[:300], reparsed=str(norm(t2))[:300])
+        ctx.label('subs:roundtrip-ok')
+        ctx.nontrivial(['subs', case['skel'], kw['parser'], w], sample={'grammar': g, 'text': w, 'reconstructed': out, 'term_subs': sorted(subs)})
+
+
 def strat():
     return gramgen.grammar_and_inputs(O, max_len=10, n=4).map(lambda c: {'g': c['g'], 'texts': c['texts']})
 
@@ -222,4 +281,5 @@ def strat():
 def phases(tier):
     k = 12 if tier == 'thorough' else 1
     return [Phase('roundtrip', 'hypothesis', strategy=strat(), max_examples=24000 * k),
-            Phase('regexp-terminals-next-to-keywords', 'hypothesis', strategy=skeleton_cases(), max_examples=3000 * k, check=check_skeleton)]
+            Phase('regexp-terminals-next-to-keywords', 'hypothesis', strategy=skeleton_cases(), max_examples=3000 * k, check=check_skeleton),
+            Phase('term-subs-and-declared-terminals', 'hypothesis', strategy=subs_cases(), max_examples=1500 * k, check=check_subs)]
